@@ -142,13 +142,13 @@ Proof. exact extend_const_capture_refuted. Qed.
 Print Assumptions C15_hard_coded_extend_const_would_capture.
 
 Theorem C15_hard_coded_join_merge_key_would_capture :
-  wit (PJoin "CROSS" []) ["g"; "data_algebra_temp_merge_col"] ["q"].
+  wit (PJoin "CROSS" [] false) ["g"; "data_algebra_temp_merge_col"] ["q"].
 Proof. exact join_merge_key_capture_refuted. Qed.
 Print Assumptions C15_hard_coded_join_merge_key_would_capture.
 
 Theorem C15_hard_coded_join_suffix_would_raise :
-  wit (PJoin "LEFT" ["k"]) ["k"; "x"; "x_tmp_right_col"] ["k"; "x"]
-  /\ pexec sym hard (PJoin "LEFT" ["k"]) (sframe "<L:" ["k"; "x"; "x_tmp_right_col"]) (sframe "<R:" ["k"; "x"]) = None.
+  wit (PJoin "LEFT" ["k"] false) ["k"; "x"; "x_tmp_right_col"] ["k"; "x"]
+  /\ pexec sym hard (PJoin "LEFT" ["k"] false) (sframe "<L:" ["k"; "x"; "x_tmp_right_col"]) (sframe "<R:" ["k"; "x"]) = None.
 Proof. exact join_suffix_capture_refuted. Qed.
 Print Assumptions C15_hard_coded_join_suffix_would_raise.
 
@@ -190,8 +190,8 @@ Example C15_code_leaves_the_witness_columns_alone :
   pexec_code sym (PProject [mksop "s" "sum" (ArgCol "x") []] ["_data_table_temp_col"]) (sframe "<L:" ["_data_table_temp_col"; "x"]) (sframe "<R:" [])
   = plain sym (PProject [mksop "s" "sum" (ArgCol "x") []] ["_data_table_temp_col"]) (sframe "<L:" ["_data_table_temp_col"; "x"]) (sframe "<R:" [])
   /\ n_table_temp (code_names ["_data_table_temp_col"; "x"; "s"] []) = "__data_table_temp_col"
-  /\ pexec_code sym (PJoin "LEFT" ["k"]) (sframe "<L:" ["k"; "x"; "x_tmp_right_col"]) (sframe "<R:" ["k"; "x"])
-     = plain sym (PJoin "LEFT" ["k"]) (sframe "<L:" ["k"; "x"; "x_tmp_right_col"]) (sframe "<R:" ["k"; "x"])
+  /\ pexec_code sym (PJoin "LEFT" ["k"] false) (sframe "<L:" ["k"; "x"; "x_tmp_right_col"]) (sframe "<R:" ["k"; "x"])
+     = plain sym (PJoin "LEFT" ["k"] false) (sframe "<L:" ["k"; "x"; "x_tmp_right_col"]) (sframe "<R:" ["k"; "x"])
   /\ n_right (code_names ["k"; "x"; "x_tmp_right_col"; "k"; "x"] ["k"; "x"]) "x" = "x_tmp_right_col_".
 Proof. repeat split; vm_compute; reflexivity. Qed.
 
